@@ -37,6 +37,8 @@ pub struct GenCfg {
     pub zero_vol_pct: u32,
     /// percentage of market-case operations applied to the asset's own book (`get_order_book_mut`)
     pub direct_pct: u32,
+    /// percentage of market orders (narrow mode) whose volume is larger than any level the history builds
+    pub sweep_pct: u32,
 }
 
 impl GenCfg {
@@ -63,6 +65,7 @@ impl GenCfg {
             narrow: false,
             zero_vol_pct: 0,
             direct_pct: 0,
+            sweep_pct: 0,
         }
     }
 }
@@ -151,9 +154,10 @@ fn op_strategy(cfg: &GenCfg, f: &Frame) -> BoxedStrategy<Op> {
     let trader = trader_strategy(cfg.wide);
     let rf = ref_strategy(cfg.redundant_skew);
     let new_order = if cfg.narrow {
-        let (tick, mid, m) = (f.tick, f.mid, cfg.market_pct);
-        (any::<bool>(), vol.clone(), trader, 0u32..100, 0u32..2, 0u32..4)
-            .prop_map(move |(bid, vol, trader, r, k, anyk)| {
+        let (tick, mid, m, sweep) = (f.tick, f.mid, cfg.market_pct, cfg.sweep_pct);
+        (any::<bool>(), vol.clone(), trader, 0u32..100, 0u32..2, 0u32..4, 0u32..100, 150u32..2_000)
+            .prop_map(move |(bid, vol, trader, r, k, anyk, rs, big)| {
+                let vol = if r < m && rs < sweep { big } else { vol };
                 let price = if r < m {
                     None
                 } else if r < m + 12 {
@@ -349,11 +353,13 @@ pub struct EnvGenCfg {
     pub w_modify: u32,
     pub market_pct: u32,
     pub drain: bool,
+    /// large volumes (up to 2^31) with exact accounting, one volume-adding instruction per step
+    pub big_vols: bool,
 }
 
 impl EnvGenCfg {
     pub fn base() -> Self {
-        EnvGenCfg { max_steps: 8, max_batch: 12, overfull: false, offgrid: false, toggle_pct: 0, start_off_pct: 0, kinds: 2, large_batch_pct: 3, w_new: 60, w_cancel: 18, w_modify: 22, market_pct: 15, drain: true }
+        EnvGenCfg { max_steps: 8, max_batch: 12, overfull: false, offgrid: false, toggle_pct: 0, start_off_pct: 0, kinds: 2, large_batch_pct: 3, w_new: 60, w_cancel: 18, w_modify: 22, market_pct: 15, drain: true, big_vols: false }
     }
 }
 
@@ -373,7 +379,11 @@ fn instr_strategy(cfg: &EnvGenCfg, frames: &[Frame]) -> BoxedStrategy<Instr> {
             let offgrid = f.offgrid;
             // market orders: half of them larger than any side the generator builds (volumes <= 12 per
             // order), so that sweeps of a whole side with a discarded remainder are a regular class
-            let vol_s = (vol_strategy(f.wide), 0u32..100, 200u32..5000).prop_map(|(v, r, big)| (v, if r < 50 { big } else { v }));
+            let vol_s = if cfg.big_vols {
+                (vol_strategy(true), vol_strategy(true)).prop_map(|(v, m)| (v, m)).boxed()
+            } else {
+                (vol_strategy(f.wide), 0u32..100, 200u32..5000).prop_map(|(v, r, big)| (v, if r < 50 { big } else { v })).boxed()
+            };
             let new = (any::<bool>(), vol_s, 0u32..6, 0u32..100, bid_price, ask_price, any_price.clone()).prop_map(move |(bid, (vol, mvol), trader, r, bp, ap, anyp)| {
                 let vol = if r < m { mvol } else { vol };
                 let price = if r < m {
@@ -435,6 +445,7 @@ pub fn env_case_strategy(cfg: EnvGenCfg) -> BoxedStrategy<EnvCase> {
         let tp = cfg.toggle_pct;
         let step = (0u32..100, any::<bool>(), proptest::collection::vec(instr, batch_range)).prop_map(move |(r, on, instrs)| StepSpec { toggle: if r < tp { Some(on) } else { None }, instrs });
         let (overfull, drain) = (cfg.overfull, cfg.drain);
+        let exact_vols = cfg.big_vols;
         (step_size_s, proptest::collection::vec(step, 1..=cfg.max_steps)).prop_map(move |(step_size, mut steps)| {
             if overfull {
                 // batches of step_size+1 .. 4*step_size instructions
@@ -447,7 +458,7 @@ pub fn env_case_strategy(cfg: EnvGenCfg) -> BoxedStrategy<EnvCase> {
                     s.instrs.truncate(step_size.min(1 << 20) as usize);
                 }
             }
-            EnvCase { kind_assets, levels, ticks: ticks.clone(), t0, step_size, trading, seed, steps, drain }
+            EnvCase { kind_assets, levels, ticks: ticks.clone(), t0, step_size, trading, seed, steps, drain, exact_vols }
         })
     })
     .boxed()
